@@ -36,7 +36,7 @@ def case(prefix, text):
 
 
 def generate(rng, tier):
-    bound = 5 if tier == 'quick' else 7
+    bound = 6 if tier == 'quick' else 7
     cases = []
     for n in range(0, bound + 1):
         for seq in itertools.product(TOKENS, repeat=n):
@@ -44,10 +44,6 @@ def generate(rng, tier):
                 continue        # nothing to decode: covered up to length 3 and by the random generator
             cases.append(case('', ''.join(seq)))
     yield ('exhaustive-12tokens-len%d' % bound, cases)
-    if tier == 'quick':
-        # length 6 with the escape in front (the neighbourhood of one escape, exhaustively)
-        cases = [case('', '\\' + ''.join(seq)) for seq in itertools.product(TOKENS, repeat=5)]
-        yield ('exhaustive-12tokens-escape-then-5', cases)
     n = 20000 if tier == 'quick' else 400000
     cases = []
     for _ in range(n):
